@@ -4,6 +4,7 @@
 package resource_division
 
 import (
+	"cmp"
 	"math"
 	"slices"
 
@@ -155,7 +156,7 @@ func getQueuesByPriority(queues map[common_info.QueueID]*rs.QueueAttributes) (ma
 
 	priorities := maps.Keys(queuesByPriority)
 	slices.SortFunc(priorities, func(i, j int) int {
-		return j - i
+		return cmp.Compare(j, i)
 	})
 
 	return queuesByPriority, priorities
